@@ -34,7 +34,8 @@ def setup_eval():
         shutil.copy("/repo/Cargo.lock", f"{EVAL}/repo/Cargo.lock")
     sh(f"git -C {EVAL}/repo checkout -q -- . && git -C {EVAL}/repo checkout -q --detach {head()}")
     os.makedirs(f"{EVAL}/root/replays", exist_ok=True)
-    sh(f"rsync -a --delete --exclude target /verif/sim/ {EVAL}/sim/")
+    # the COMMITTED harness (so that edits in progress in /verif/sim are never picked up half-way)
+    sh(f"mkdir -p {EVAL}/sim && git -C /verif archive HEAD sim | tar -x -m -C {EVAL}")
     t = open(f"{EVAL}/sim/Cargo.toml").read().replace('path = "/repo"', f'path = "{EVAL}/repo"')
     open(f"{EVAL}/sim/Cargo.toml", "w").write(t)
     shutil.copy("/verif/KNOWN_FINDINGS.txt", f"{EVAL}/root/KNOWN_FINDINGS.txt")
